@@ -2,7 +2,10 @@
 
 package tracer
 
-import "sync"
+import (
+	"net/http/httptest"
+	"sync"
+)
 
 type vfCountingCollector struct {
 	mu     sync.Mutex
@@ -18,3 +21,26 @@ func (c *vfCountingCollector) Complete(t Trace) {
 	c.mu.Unlock()
 }
 
+
+type vfCollector struct {
+	mu     sync.Mutex
+	traces []Trace
+}
+
+func (c *vfCollector) Complete(t Trace) {
+	c.mu.Lock()
+	c.traces = append(c.traces, t)
+	c.mu.Unlock()
+}
+func (c *vfCollector) Traces() []Trace {
+	c.mu.Lock()
+	defer c.mu.Unlock()
+	return append([]Trace(nil), c.traces...)
+}
+
+func vfNewBuilder(collector Collector, client bool) *builder {
+	req := httptest.NewRequest("POST", "/svc/Method", nil)
+	req.Header.Set("X-Test-Case-Name", "Suite/T")
+	b, _ := newBuilder(req, client, collector)
+	return b
+}
